@@ -444,10 +444,19 @@ impl PeerDHTRecord {
 
     /// Get a hash of this record for deduplication
     pub fn content_hash(&self) -> Hash {
+        // Cover every signed field and the signature itself: the hash keys the signature cache,
+        // so two records may share it only if they are byte-identical.
         let mut hasher = blake3::Hasher::new();
-        hasher.update(&self.user_id.hash);
-        hasher.update(&self.sequence_number.to_be_bytes());
-        hasher.update(&self.timestamp.to_be_bytes());
+        match self.create_signable_message() {
+            Ok(message) => {
+                hasher.update(&(message.len() as u64).to_be_bytes());
+                hasher.update(&message);
+            }
+            Err(_) => {
+                hasher.update(&u64::MAX.to_be_bytes());
+            }
+        }
+        hasher.update(self.signature.as_bytes());
         hasher.finalize()
     }
 }
